@@ -14,6 +14,27 @@ Lemma consts_ok :
   prefix_certs = spec_certs /\ prefix_ocsp = spec_ocsp.
 Proof. repeat split; reflexivity. Qed.
 
+(** the control-flow shape the translator reads (item emitC18Shape) is the one [Model.clean]
+    hard-codes: order of the steps of CleanStorage ([clean] / [clean_locked]: lock, deferred unlock,
+    interval check, staples, certificates, record); a staple that cannot be loaded is skipped
+    ([staples_loop]: continue) while an unloadable / non-PEM / unparseable .crt and a failing
+    site-folder Delete abandon deleteExpiredCerts ([assets_loop], [sites_loop]: return); listing
+    errors below certificates/ are skipped; the site folder is deleted only when it lists as empty
+    (length = 0) and Stat succeeds on a non-terminal key; the PEM block type the oracle [as_cert]
+    stands for *)
+Definition spec_steps : list str :=
+  [ [108; 111; 99; 107]; [100; 101; 102; 101; 114; 95; 117; 110; 108; 111; 99; 107];
+    [105; 110; 116; 101; 114; 118; 97; 108]; [115; 116; 97; 112; 108; 101; 115];
+    [99; 101; 114; 116; 115]; [114; 101; 99; 111; 114; 100] ]%N.
+    (* lock, defer_unlock, interval, staples, certs, record *)
+Lemma consts_shape_ok :
+  clean_steps = spec_steps /\
+  clean_staple_load_error_aborts = false /\ clean_crt_errors_abort = [true; true; true] /\
+  clean_folder_delete_error_aborts = true /\ clean_list_errors_abort = [true; false; false; false] /\
+  clean_pem_type = [67; 69; 82; 84; 73; 70; 73; 67; 65; 84; 69]%N /\
+  clean_folder_empty_cmp = CmpEq /\ clean_folder_guard = true.
+Proof. repeat split; reflexivity. Qed.
+
 (** * Strings *)
 Lemma seqb_eq a b : seqb a b = true <-> a = b.
 Proof.
